@@ -383,6 +383,21 @@ def proxy_fold_rule(repo: Repo, rep: Report, rid: str) -> None:
               (f"{bad[0][0]}: {bad[0][1]} is {bad[0][2]}, expected {bad[0][3]}: members reached through it and the union's buffer go out of step") if bad else "", fi.loc())
 
 
+def rebuild_fold_rule(repo: Repo, rep: Report, rid: str) -> None:
+    rep.rule(rid, "Union._rebuild folded over 6 (old buffer, member offset, value) cases: the member's encoding replaces exactly the bytes at the member's "
+                  "offset, the rest of the buffer stays (zeros when there was none), None is written as the default, 0 as 0; members are re-read, then re-proxified")
+    from ..folds import fold_union_rebuild
+
+    fi = repo.func("types/structure.py", "Union._rebuild")
+    fold = fold_union_rebuild(repo)
+    if fold is None:
+        rep.ok(rid, f"{fi.key}:fold", "not foldable with the evaluator's whitelist: the structural rebuild rules decide", fi.loc(), nontrivial=False)
+        return
+    bad = fold["bad"]
+    rep.check(not bad, rid, f"{fi.key}:fold", f"{fold['cases']} cases agree with the reference",
+              (f"Union._rebuild for {bad[0][0]}: buffer {bad[0][1]}, expected {bad[0][2]} (calls {bad[0][3]}): assigning one member clobbers bytes that belong to the others") if bad else "", fi.loc())
+
+
 def run(repo: Repo, rep: Report, tier: str) -> None:
     member_seek_rule(repo, rep, "C11.R1")
     rebuild_rule(repo, rep, "C11.R2")
@@ -417,3 +432,4 @@ def run(repo: Repo, rep: Report, tier: str) -> None:
     default_substitution_rule(repo, rep, "C11.R17")
     call_shortcut_rule(repo, rep, "C11.R18")
     proxy_fold_rule(repo, rep, "C11.R19")
+    rebuild_fold_rule(repo, rep, "C11.R20")
